@@ -412,6 +412,162 @@ def run_canon_ops(case, names, n):
     return ok(nontrivial=len(allv) >= 2, **tags)
 
 
+# ----------------------------------------------------------------------------- LinearGaussianCPD.fit
+def gen_cpdfit(rng, tier):
+    k = rng.randint(0, 3)
+    N = rng.randint(k + 5, 25)
+    ev = gen.node_names(rng, k, "word") if k else []
+    order = list(range(k + 1))          # column order of the data / of `states`: position 0 is (Y|X)
+    rng.shuffle(order)
+    return {"k": k, "evidence": ev, "order": order, "extra": rng.random() < .3, "frame": rng.random() < .5,
+            "data": [[rs(Fraction(rng.randint(-20, 20), 2)) for _ in range(k + 1)] for _ in range(N)]}
+
+
+def run_cpdfit(case, drv):
+    """LinearGaussianCPD.fit(data, states, 'MLE'): intercept, one slope per parent IN THE ORDER OF cpd.evidence, and the maximum-
+    likelihood residual standard deviation sqrt(RSS / N) - whatever order the columns of the data are listed in"""
+    import numpy as np
+    import pandas as pd
+    from pgmpy.factors.continuous import LinearGaussianCPD
+    k, ev = case["k"], case["evidence"]
+    N = len(case["data"])
+    cols_all = ["(Y|X)"] + list(ev)
+    cols = [cols_all[i] for i in case["order"]]
+    rows = [[float(Fraction(r[i])) for i in case["order"]] for r in case["data"]]
+    if case["extra"]:
+        cols = cols + ["unrelated"]
+        rows = [r + [float(j % 3)] for j, r in enumerate(rows)]
+    cpd = LinearGaussianCPD("Y", [0.0] * (k + 1), 1.0, list(ev))
+    data = pd.DataFrame(rows, columns=cols) if case["frame"] else np.array(rows)
+    r = drv.call("ols", xs=[[row[i + 1] for i in range(k)] for row in case["data"]], ys=[row[0] for row in case["data"]])
+    if r is None:
+        return skip("rank-deficient design")
+    tags = dict(k=k, permuted=case["order"] != sorted(case["order"]), frame=case["frame"])
+    try:
+        with np.errstate(all="ignore"):
+            beta, sigma = cpd.fit(data, states=cols, estimator="MLE")
+    except Exception as e:
+        return fail(f"LinearGaussianCPD.fit raised {type(e).__name__}: {e}", **tags)
+    exp = [float(Fraction(x)) for x in r["beta"]]
+    got = [float(x) for x in np.asarray(beta).reshape(-1)]
+    scale = max(1.0, max(abs(x) for x in exp))
+    if len(got) != len(exp) or any(abs(a - b) > 1e-6 * scale for a, b in zip(got, exp)):
+        return fail(f"LinearGaussianCPD.fit: coefficients {got} for evidence {ev} (columns listed as {cols}); least squares gives {exp}", **tags)
+    rss = float(Fraction(r["rss"]))
+    if rss / N > 1e-6:
+        if abs(float(sigma) - (rss / N) ** .5) > 1e-5 * max(1.0, (rss / N) ** .5):
+            return fail(f"LinearGaussianCPD.fit: sigma {float(sigma)}, sqrt(RSS / N) = {(rss / N) ** .5}", **tags)
+    return ok(nontrivial=k >= 2, **tags)
+
+
+# ----------------------------------------------------------------------------- one model object, a history of edits and queries
+def gen_lghist(rng, tier):
+    case = gen_lg(rng, tier)
+    n = len(case["nodes"])
+    steps = []
+    for _ in range(rng.randint(2, 4)):
+        kind = rng.choice(["joint", "predict", "simulate", "replace", "replace", "refit"])
+        if kind == "replace":
+            v = rng.randrange(n)
+            ps = [u for u, w in case["edges"] if w == v]
+            steps.append({"op": "replace", "v": v, "b0": rs(Fraction(rng.randint(-8, 8), 2)), "var": rs(Fraction(rng.randint(1, 12), 2)),
+                          "w": {str(u): rs(Fraction(rng.randint(-6, 6), 2)) for u in ps}})
+        elif kind == "refit":
+            N = rng.randint(n + 4, 16)
+            steps.append({"op": "refit", "data": [[rs(Fraction(rng.randint(-20, 20), 2)) for _ in range(n)] for _ in range(N)]})
+        else:
+            steps.append({"op": kind})
+    steps.append({"op": rng.choice(["joint", "predict"])})
+    case["steps"] = steps
+    case["obs"] = rng.sample(range(n), rng.randint(1, max(1, n - 1))) if n > 1 else []
+    return case
+
+
+def run_lghist(case, drv):
+    """the joint / prediction always describes the CURRENT structural equations: after a CPD has been replaced (add_cpds on a node that
+    already has one) or the model has been fitted again, nothing computed earlier may be served"""
+    import numpy as np
+    import pandas as pd
+    import networkx as nx
+    from pgmpy.factors.continuous import LinearGaussianCPD
+    names = case["nodes"]
+    n = len(names)
+    m = build_lg(case)
+    cur = {"b0": list(case["b0"]), "var": list(case["var"]), "w": dict(case["w"])}
+
+    def expected():
+        c2 = dict(case)
+        c2.update(b0=cur["b0"], var=cur["var"], w=cur["w"])
+        return model_joint(c2, drv)
+    for i, st_ in enumerate(case["steps"]):
+        op = st_["op"]
+        tags = dict(n=n, step=i, op=op)
+        try:
+            if op == "replace":
+                v = st_["v"]
+                ps = [u for u, w in case["edges"] if w == v]
+                m.add_cpds(LinearGaussianCPD(names[v], [float(Fraction(st_["b0"]))] + [float(Fraction(st_["w"][str(u)])) for u in ps],
+                                             float(Fraction(st_["var"])), [names[u] for u in ps]))
+                cur["b0"][v], cur["var"][v] = st_["b0"], st_["var"]
+                for u in ps:
+                    cur["w"][f"{u},{v}"] = st_["w"][str(u)]
+                continue
+            if op == "refit":
+                df = pd.DataFrame([[float(Fraction(x)) for x in row] for row in st_["data"]], columns=names)
+                N = len(st_["data"])
+                newp = {"b0": [None] * n, "var": [None] * n, "w": {}}
+                bad = False
+                for v in range(n):
+                    ps = [u for u, w in case["edges"] if w == v]
+                    r = drv.call("ols", xs=[[row[p] for p in ps] for row in st_["data"]], ys=[row[v] for row in st_["data"]])
+                    if r is None or Fraction(r["rss"]) <= 0:
+                        bad = True
+                        break
+                    newp["b0"][v] = r["beta"][0]
+                    newp["var"][v] = rs(Fraction(r["rss"]) / (N - 1))
+                    for u, b in zip(ps, r["beta"][1:]):
+                        newp["w"][f"{u},{v}"] = b
+                if bad:
+                    continue
+                m.fit(df)
+                cur.update(newp)
+                continue
+            r, pos = expected()
+            M = np.array([float(Fraction(x)) for x in r["mean"]])
+            C = np.array([[float(Fraction(x)) for x in rw] for rw in r["cov"]])
+            scale = max(1.0, float(np.abs(C).max()), float(np.abs(M).max()))
+            if op == "joint":
+                mean, cov = m.to_joint_gaussian()
+                topo = list(nx.topological_sort(m))
+                idx = {nm: k for k, nm in enumerate(topo)}
+                for v in range(n):
+                    if abs(mean[idx[names[v]]] - M[pos[v]]) > 1e-5 * scale:
+                        return fail(f"step {i}: joint mean of {names[v]} = {mean[idx[names[v]]]}, current structural equations give {M[pos[v]]}", **tags)
+                    for u in range(n):
+                        if abs(cov[idx[names[v]], idx[names[u]]] - C[pos[v], pos[u]]) > 1e-5 * scale:
+                            return fail(f"step {i}: joint covariance ({names[v]},{names[u]}) = {cov[idx[names[v]], idx[names[u]]]}, current "
+                                        f"structural equations give {C[pos[v], pos[u]]}", **tags)
+            elif op == "simulate":
+                m.simulate(n=5, seed=i)
+            elif op == "predict" and case["obs"] and len(case["obs"]) < n:
+                obs = case["obs"]
+                miss = [v for v in range(n) if v not in obs]
+                a, b = [pos[v] for v in miss], [pos[v] for v in obs]
+                Sbb = C[np.ix_(b, b)]
+                if np.linalg.cond(Sbb) > 1e6:
+                    continue
+                x = np.array([1.0 + 0.5 * k for k in range(len(obs))])
+                vars_, mu_c, cov_c = m.predict(pd.DataFrame([x], columns=[names[v] for v in obs]))
+                em = M[a] + C[np.ix_(a, b)] @ np.linalg.solve(Sbb, x - M[b])
+                for k_, nm in enumerate(vars_):
+                    want = em[miss.index(names.index(nm))]
+                    if abs(mu_c[0][k_] - want) > 1e-4 * max(scale, float(np.abs(em).max())):
+                        return fail(f"step {i}: predicted mean of {nm} = {mu_c[0][k_]}, conditioning the current joint gives {want}", **tags)
+        except Exception as e:
+            return fail(f"step {i} ({op}) raised {type(e).__name__}: {e}", **tags)
+    return ok(nontrivial=any(s_["op"] in ("replace", "refit") for s_ in case["steps"]), n=n)
+
+
 # ----------------------------------------------------------------------------- simulate
 def gen_sim(rng, tier):
     case = gen_lg(rng, tier)
@@ -463,4 +619,6 @@ STREAMS = [
     Stream("fit", gen_fit, run_fit, quick=200, thorough=2000),
     Stream("gaussian_distribution", gen_gd, run_gd, quick=400, thorough=4000),
     Stream("simulate", gen_sim, run_sim, quick=150, thorough=1500),
+    Stream("cpd_fit", gen_cpdfit, run_cpdfit, quick=300, thorough=3000),
+    Stream("history", gen_lghist, run_lghist, quick=300, thorough=3000),
 ]
